@@ -74,8 +74,8 @@ RoundTrip == (phase = "ready" /\ fam = "W" /\ file = <<>>) =>
 
 -----------------------------------------------------------------------------
 (* ---- generator: one record per file with the predictions for every query of QuerySeq:
-        d = the declarative decision (the property), o = where the pinned algorithm (StarFix = SubjectFix
-        = FALSE) decides differently, how, and which of the two pinned pieces explains it ---- *)
+        d = the declarative decision (the property), o = where the former algorithm (StarFix = SubjectFix
+        = FALSE) decides differently, how, and which of the two former pieces explains it ---- *)
 Cmp(r) == [t |-> r.t, w |-> r.want, y |-> r.why]
 CmpT(r) == [t |-> r.t, w |-> SeqSet(r.want), y |-> r.why]
 Emit == phase = "ready" =>
@@ -83,7 +83,7 @@ Emit == phase = "ready" =>
       NQ == Len(QS)
       D == [i \in 1..NQ |-> Cmp(DecideD(file, QS[i]))]
       O == [i \in 1..NQ |-> CmpT(DecideT(FALSE, FALSE, db, QS[i]))]
-      \* which pinned piece explains the difference
+      \* which former piece explains the difference
       Cause(i) == IF CmpT(DecideT(FALSE, TRUE, db, QS[i])) = O[i] THEN "star"
                   ELSE IF CmpT(DecideT(TRUE, FALSE, db, QS[i])) = O[i] THEN "subject" ELSE "both"
   IN PrintT("TRACE " \o ToJson([fam |-> fam, f |-> file, d |-> D,
